@@ -377,6 +377,7 @@ _CASTERS = {
     "C11": ["ToBinary", "binary_ops", "To"],
     "C12": _INT + ["ToString", "ToNumber", "ToBool", "ToFloat64", "ToFloat32", "To"],
     "C14": ["ToTime", "ToDate", "ToTimestamp", "ToString", "ToInt64", "To"],
+    "C16": ["ToNumber", "ToDate", "ToInt", "ToInt64", "To"],
 }
 for _pid, _c in _CASTERS.items():
     PROPS[_pid]["casters"] = _c
